@@ -64,6 +64,20 @@ def gen_graph(rng, nclasses=None, ninst=None, nprops=None, bnodes=True, maxcard=
     return triples
 
 
+SPICY_LEX = ['say "hi"', '6\'2"', 'a "b" c', 'x@y', 'a^^b', 'back\\slash', 'line\u2028sep', 'nel\u0085x', 'ff\x0cx', '"', 'New York #1', 'a . b', '<tag>', 'ünï']
+
+
+def spice_literals(rng, triples, p=0.3):
+    """the same graph with some lexical forms replaced by awkward but legal ones (escaped quotes and backslashes, '@', '^^', '#', ' . ',
+    Unicode line boundaries, non-ASCII); datatypes and language tags stay, so every abstract figure stays - only the readers are exercised"""
+    out = []
+    for s, pr, o in triples:
+        if o[0] == 'L' and rng.random() < p:
+            o = ('L', rng.choice(SPICY_LEX), o[2], o[3])
+        out.append((s, pr, o))
+    return out
+
+
 def gen_schema_graph(rng, inst_prop=RDF_TYPE):
     """'schema-consistent' graph (strict domain of C03/C09): per (class, property) the non-literal
     neighbours are homogeneous in node kind and either all untyped or all instances of one
